@@ -216,13 +216,7 @@ class Namespace(argparse.Namespace):
         """Converts the nested namespaces into nested dictionaries."""
         dic = {}
         for key, val in vars(self).items():
-            if isinstance(val, Namespace):
-                val = val.as_dict()
-            elif isinstance(val, dict) and val != {} and all(isinstance(v, Namespace) for v in val.values()):
-                val = {k: v.as_dict() for k, v in val.items()}
-            elif isinstance(val, list) and val != [] and all(isinstance(v, Namespace) for v in val):
-                val = [v.as_dict() for v in val]
-            dic[del_clash_mark(key)] = val
+            dic[del_clash_mark(key)] = namespaces_as_dicts(val)
         return dic
 
     def as_flat(self) -> argparse.Namespace:
@@ -329,6 +323,24 @@ def del_clash_mark(key: str) -> str:
     if key[0] == clash_mark:
         key = key[1:]
     return key
+
+
+def contains_namespace(val) -> bool:
+    if isinstance(val, (dict, list)) and not isinstance(val, OrderedDict):
+        return any(contains_namespace(v) for v in (val.values() if isinstance(val, dict) else val))
+    return isinstance(val, Namespace)
+
+
+def namespaces_as_dicts(val):
+    """Converts namespaces, also the ones inside (nested) lists and dicts, leaving other objects as they are."""
+    if isinstance(val, Namespace):
+        val = val.as_dict()
+    elif contains_namespace(val):
+        if isinstance(val, dict):
+            val = {k: namespaces_as_dicts(v) for k, v in val.items()}
+        else:
+            val = [namespaces_as_dicts(v) for v in val]
+    return val
 
 
 def namespace_to_dict(namespace: Namespace) -> Dict[str, Any]:
